@@ -100,7 +100,7 @@ impl Context
                 use std::path;
 
                 let next_reference_id =
-                    Context::read_cached_next_reference_id(&loaded_config, config_dir);
+                    Context::read_cached_next_reference_id(&loaded_config, config_dir)?;
 
                 let mut loaded_context = Self {
                     config: loaded_config,
@@ -149,21 +149,45 @@ impl Context
     ///
     /// # Returns
     ///
-    /// The cached next reference ID, if one exists.
-    fn read_cached_next_reference_id(config: &Config, directory_path: &str) -> Option<u32>
+    /// The cached next reference ID, if caching is enabled and the lock file exists and can be
+    /// parsed; an error message if the lock file exists but cannot be examined or read.
+    fn read_cached_next_reference_id(
+        config: &Config,
+        directory_path: &str,
+    ) -> Result<Option<u32>, String>
     {
         let cache_path = std::path::Path::new(directory_path).join(Context::CACHE_FILENAME);
 
-        if !config.use_cache || !cache_path.exists()
+        if !config.use_cache
         {
-            return None;
+            return Ok(None);
         }
 
-        if let Ok(cache_yaml) = std::fs::read_to_string(cache_path)
+        /*
+         * A lock file that does not exist, or whose contents cannot be parsed, is ignored and the
+         * next reference ID is determined from the code. A lock file that exists but cannot be
+         * examined or read is different: carrying on without it could hand out IDs that have
+         * been used before, so that is an error.
+         */
+        match cache_path.try_exists()
         {
-            match serde_yaml::from_str::<Cache>(cache_yaml.as_str())
+            Ok(true) => (),
+            Ok(false) => return Ok(None),
+            Err(e) =>
             {
-                Ok(loaded_cache) => Some(loaded_cache.next_reference_id),
+                return Err(format!(
+                    "Failed to examine lock file {}: {}",
+                    Context::CACHE_FILENAME,
+                    e
+                ))
+            },
+        }
+
+        match std::fs::read(cache_path)
+        {
+            Ok(cache_bytes) => match serde_yaml::from_slice::<Cache>(&cache_bytes)
+            {
+                Ok(loaded_cache) => Ok(Some(loaded_cache.next_reference_id)),
                 Err(e) =>
                 {
                     log::warn!(
@@ -171,17 +195,21 @@ impl Context
                         Context::CACHE_FILENAME,
                         e
                     );
-                    None
+                    Ok(None)
                 },
-            }
-        }
-        else
-        {
-            log::warn!(
-                "[ref: 32] Failed to read lock file {}",
-                Context::CACHE_FILENAME
-            );
-            None
+            },
+            Err(e) =>
+            {
+                log::warn!(
+                    "[ref: 32] Failed to read lock file {}",
+                    Context::CACHE_FILENAME
+                );
+                Err(format!(
+                    "Failed to read lock file {}: {}",
+                    Context::CACHE_FILENAME,
+                    e
+                ))
+            },
         }
     }
 
